@@ -159,6 +159,13 @@ def X.erase (x : X S C) : P S := ⟨x.valid, x.struct, x.err⟩
 
 def ratMax (a b : Rat) : Rat := if a ≤ b then b else a
 
+/-- confidence literals of the source -/
+abbrev cStrict : Rat := 1
+abbrev cExtraction : Rat := 9 / 10
+abbrev cFailed : Rat := 0
+/-- dataclass default of `EnhancedFoldedProtein.confidence` -/
+abbrev cDefault : Rat := 1
+
 /-- `max(0.5, 0.85 - n * 0.05)` -/
 def lenientConfidence (n : Nat) : Rat := ratMax (1 / 2) (17 / 20 - (n : Rat) * (1 / 20))
 /-- `max(0.4, 0.75 - n * 0.05)` -/
@@ -182,10 +189,10 @@ def foldStrictX (env : Env J S C) (raw : Text) : W (Call J S C) (X S C) :=
   W.tryCatch
     (do let d ← cLoads env (strip raw)
         let s ← cValidate env d
-        pure ⟨true, some s, none, 1, [], some .strict⟩)
+        pure ⟨true, some s, none, cStrict, [], some .strict⟩)
     (fun e => match e with
-      | .jsonDecode => some ⟨false, none, some .json, 1, [], none⟩
-      | .validation => some ⟨false, none, some .validation, 1, [], none⟩
+      | .jsonDecode => some ⟨false, none, some .json, cDefault, [], none⟩
+      | .validation => some ⟨false, none, some .validation, cDefault, [], none⟩
       | .other _ => none)
 
 /-! ### EXTRACTION -/
@@ -230,8 +237,8 @@ def foldExtraction (env : Env J S C) (raw : Text) : W (Call J S C) (P S) := do
 /-- `_fold_extraction_enhanced` -/
 def foldExtractionX (env : Env J S C) (raw : Text) : W (Call J S C) (X S C) := do
   match ← scanPatterns env raw patternIds with
-  | some (i, s) => pure ⟨true, some s, none, 9 / 10, [.extractedVia i], some .extraction⟩
-  | none => pure ⟨false, none, some .noValidJson, 1, [], none⟩
+  | some (i, s) => pure ⟨true, some s, none, cExtraction, [.extractedVia i], some .extraction⟩
+  | none => pure ⟨false, none, some .noValidJson, cDefault, [], none⟩
 
 /-! ### `_extract_json` -/
 
@@ -286,16 +293,16 @@ def foldLenient (env : Env J S C) (raw : Text) : W (Call J S C) (P S) := do
 /-- `_fold_lenient_enhanced` -/
 def foldLenientX (env : Env J S C) (raw : Text) : W (Call J S C) (X S C) := do
   match ← extractJson env raw with
-  | none => pure ⟨false, none, some .noJson, 1, [], none⟩
+  | none => pure ⟨false, none, some .noJson, cDefault, [], none⟩
   | some e =>
-    if env.isNone e then pure ⟨false, none, some .noJson, 1, [], none⟩
+    if env.isNone e then pure ⟨false, none, some .noJson, cDefault, [], none⟩
     else do
       let dc ← cCoerce env e
       W.tryCatch
         (do let s ← cValidate env dc.1
             pure ⟨true, some s, none, lenientConfidence dc.2.length, dc.2.map .coerced, some .lenient⟩)
         (fun x => match x with
-          | .validation => some ⟨false, none, some (.msg .validation), 1, [], none⟩
+          | .validation => some ⟨false, none, some (.msg .validation), cDefault, [], none⟩
           | _ => none)
 
 /-! ### REPAIR -/
@@ -334,7 +341,7 @@ def foldRepairX (env : Env J S C) (raw : Text) : W (Call J S C) (X S C) := do
     (do let d ← cLoads env rn.1
         let s ← cValidate env d
         pure ⟨true, some s, none, repairConfidence rn.2.length, rn.2.map .repair, some .repair⟩)
-    (fun e => (decodeOrValidationMsg e).map fun t => ⟨false, none, some t, 1, [], none⟩)
+    (fun e => (decodeOrValidationMsg e).map fun t => ⟨false, none, some t, cDefault, [], none⟩)
 
 /-! ### dispatch -/
 
@@ -461,8 +468,55 @@ def foldX (env : Env J S C) (cfg : Cfg) (st : Stats) (raw : Text) (call : List S
   | some (s, x) =>
     pure (o.stats, ⟨x.valid, x.struct, raw, x.err.map .attempt, o.attempts ++ [⟨s, true, none⟩],
                     x.confidence, x.coercions, x.strategyUsed⟩)
-  | none => pure (o.stats, ⟨false, none, raw, some (.allFailed strategies.length), o.attempts, 0, [], none⟩)
+  | none => pure (o.stats, ⟨false, none, raw, some (.allFailed strategies.length), o.attempts, cFailed, [], none⟩)
 
 end
+
+/-! ### the pinned tables: what the indices `findall i` / `sub i` and the strategy constructors stand for
+
+Regenerated from the source on every run into `Operon/Gen/ChaperoneTables.lean` and compared by
+`c11_extracted_tables_agree`. -/
+
+def cps (s : String) : List Nat := s.toList.map Char.toNat
+
+/-- `JSON_("```json\\s*([\\s\\S]*?)\\s*```", "markdown_json_block"),
+  ("```\\s*([\\s\\S]*?)\\s*```", "markdown_code_block"),
+  ("<json>([\\s\\S]*?)</json>", "xml_json_tag"),
+  ("\\{[^{}]*\\}", "bare_json_object"),
+  ("\\[[^\\[\\]]*\\]", "bare_json_array")RACTION_PATTERNS`: (regex, name) -/
+def extractionTable : List (String × String) := [
+  ("```json\\s*([\\s\\S]*?)\\s*```", "markdown_json_block"),
+  ("```\\s*([\\s\\S]*?)\\s*```", "markdown_code_block"),
+  ("<json>([\\s\\S]*?)</json>", "xml_json_tag"),
+  ("\\{[^{}]*\\}", "bare_json_object"),
+  ("\\[[^\\[\\]]*\\]", "bare_json_array")]
+
+/-- `JSON_(",\\s*}", "}", "removed_trailing_comma_object"),
+  (",\\s*]", "]", "removed_trailing_comma_array"),
+  ("'([^']*)'(?=\\s*:)", "\"\\1\"", "fixed_single_quote_key"),
+  (":\\s*'([^']*)'", ": \"\\1\"", "fixed_single_quote_value"),
+  ("(\\{|,)\\s*([a-zA-Z_][a-zA-Z0-9_]*)\\s*:", "\\1\"\\2\":", "quoted_unquoted_key"),
+  ("\\bNone\\b", "null", "converted_none_to_null"),
+  ("\\bTrue\\b", "true", "converted_true"),
+  ("\\bFalse\\b", "false", "converted_false"),
+  (":\\s*undefined\\b", ": null", "converted_undefined"),
+  (":\\s*NaN\\b", ": null", "converted_nan")AIRS`: (regex, replacement, name) -/
+def repairTable : List (String × String × String) := [
+  (",\\s*}", "}", "removed_trailing_comma_object"),
+  (",\\s*]", "]", "removed_trailing_comma_array"),
+  ("'([^']*)'(?=\\s*:)", "\"\\1\"", "fixed_single_quote_key"),
+  (":\\s*'([^']*)'", ": \"\\1\"", "fixed_single_quote_value"),
+  ("(\\{|,)\\s*([a-zA-Z_][a-zA-Z0-9_]*)\\s*:", "\\1\"\\2\":", "quoted_unquoted_key"),
+  ("\\bNone\\b", "null", "converted_none_to_null"),
+  ("\\bTrue\\b", "true", "converted_true"),
+  ("\\bFalse\\b", "false", "converted_false"),
+  (":\\s*undefined\\b", ": null", "converted_undefined"),
+  (":\\s*NaN\\b", ": null", "converted_nan")]
+
+def Strategy.name : Strategy → String
+  | .strict => "strict" | .extraction => "extraction" | .lenient => "lenient" | .repair => "repair"
+
+/-- a decimal literal of the source as (numerator, denominator) -/
+def q (p : Nat × Nat) : Rat := (p.1 : Rat) / (p.2 : Rat)
 
 end Operon.Chaperone
